@@ -407,6 +407,26 @@ def rules(rep, m):
             fx = fx or FuncCtx(m, f)
             opnd = fx.resolve(kids(x)[0])
             r7.instance("%s: (%s) %s" % (f.name, x.get("type"), render(opnd)[:70]))
+            # a probability scaled to the full 64-bit range: p * 2^64 does not fit for p = 1 (the conversion is undefined and
+            # wraps to 0 in practice) - the factor must be known to be below 1 where the product is converted
+            for y in walk(opnd):
+                if y["kind"] == "BinaryOperator" and y.get("opcode") == "*":
+                    sides = [fx.canon(z) for z in kids(y)]
+                    big = [i_ for i_, c_ in enumerate(sides) if re.fullmatch(r"\(?(18446744073709551615|1\.8446744073709552e\+19)\)?", c_)]
+                    if len(big) == 1:
+                        q = sides[1 - big[0]]
+                        known = inv.dominating_conditions(fx, f, x) + \
+                            [fx.canon(any_assert_condition(s_)) for s_ in walk(f.body) if any_assert_condition(s_) is not None]
+                        below = any(re.fullmatch(r"\(%s < 1(\.0)?\)|!\(%s >= 1(\.0)?\)" % (re.escape(q), re.escape(q)), cd) or
+                                    re.search(r"\(%s < 1(\.0)?\)" % re.escape(q), cd) and " || " not in cd for cd in known)
+                        r7.instance("%s: '%s' scaled by 2^64 before conversion; known below 1 there: %s" % (f.name, q, below))
+                        if not below:
+                            rep.finding(r7, f.name, "conversion:out-of-range", "%s converts '%s * 2^64' to a 64-bit integer where '%s' "
+                                        "may be exactly 1: the product 2^64 is outside the type, the conversion is undefined and "
+                                        "yields 0 in practice, so the certain event never happens" % (f.name, q, q), where=m.rel(loc(x)))
+                            r7.fail()
+                        else:
+                            r7.ok()
             if opnd["kind"] == "CallExpr" and callee_ref(opnd) in ROUND:
                 r7.ok()
                 continue
